@@ -2,6 +2,7 @@ package main
 
 import (
 	"go/ast"
+	"go/token"
 	"strings"
 )
 
@@ -9,10 +10,26 @@ func init() { extractors = append(extractors, extractWorker) }
 
 // extractWorker records, for the four selects of query/worker.go
 // (*worker).Run — idle, pre-check after a job was picked up, wait loop, result
-// hand-off — every arm with its channel expression, the error it assigns to
-// jobErr (if any) and how its body ends (continue / break / break Loop /
-// return / fall = runs off the end of the arm).  The worker model takes the
-// behaviour of the job-holding arms from these facts.
+// hand-off — every arm with the ROLE of its channel, the error it assigns to
+// the variable that becomes the result's error (if any) and how its body ends
+// (continue / break / break Loop / return / fall = runs off the end of the
+// arm).  The worker model takes the behaviour of the job-holding arms from
+// these facts.
+//
+// Channels are identified by what they are, never by the name of a local or
+// of the receiver:
+//
+//	results<-       a send on the parameter of type chan<- *jobResult
+//	quit            a receive from the parameter of type <-chan struct{}
+//	peerMsg         a receive from the channel obtained from SubscribeRecvMsg()
+//	peerDisconnect  a receive from the result of an OnDisconnect() call
+//	jobTimer        a receive from the .C of a timer made by time.NewTimer
+//	nextJob, job.cancelChan, job.internalCancelChan
+//	                a receive from the struct field of that name
+//
+// The result's error variable is the one stored in the `err` field of the
+// jobResult literal that is sent on results; the progress value is whatever is
+// assigned from the request's HandleResp call.
 func extractWorker() {
 	l := newLean("Worker")
 	defer l.write()
@@ -33,34 +50,24 @@ func extractWorker() {
 	if fd != nil && len(selects) != 4 {
 		fail("query/worker.go: worker.Run has %d selects, the model knows 4 (idle, pre-check, wait, report)", len(selects))
 	}
+	rc := workerRoles(fd)
 	type arm struct{ ch, err, end string }
 	arms := func(s *ast.SelectStmt) []arm {
 		var out []arm
 		for _, c := range s.Body.List {
 			cc := c.(*ast.CommClause)
-			a := arm{ch: "default", end: "fall"}
-			if cc.Comm != nil {
-				a.ch = strings.Join(strings.Fields(src(cc.Comm)), " ")
-				// keep only the channel expression
-				if i := strings.Index(a.ch, "<-"); i >= 0 {
-					if strings.HasPrefix(a.ch, "results <-") {
-						a.ch = "results<-"
-					} else {
-						a.ch = strings.TrimSpace(a.ch[i+2:])
-					}
-				}
-			}
+			a := arm{ch: rc.role(cc.Comm), end: "fall"}
 			for _, st := range cc.Body {
-				if as, ok := st.(*ast.AssignStmt); ok && len(as.Lhs) == 1 && src(as.Lhs[0]) == "jobErr" {
+				if as, ok := st.(*ast.AssignStmt); ok && len(as.Lhs) == 1 && len(as.Rhs) == 1 && rc.errVar != "" && isIdent(as.Lhs[0], rc.errVar) {
 					a.err = src(as.Rhs[0])
 				}
 			}
-			if stmtsMention(cc.Body, "progress.Finished") {
+			if rc.mentionsFinished(cc.Body) {
 				// the response arm: what it does for a finished and for an
 				// unfinished response, however the two branches are spelled
-				a.end = "finished:" + outcome(cc.Body, true) + ";unfinished:" + outcome(cc.Body, false)
+				a.end = "finished:" + rc.outcome(cc.Body, true) + ";unfinished:" + rc.outcome(cc.Body, false)
 			} else {
-				a.end = outcome(cc.Body, true)
+				a.end = rc.outcome(cc.Body, true)
 			}
 			out = append(out, a)
 		}
@@ -79,7 +86,7 @@ func extractWorker() {
 			items = append(items, "("+strq(a.ch)+", "+strq(a.err)+", "+strq(a.end)+")")
 		}
 		l.def(names[i]+"Arms", "List (String × String × String)", "["+strings.Join(items, ", ")+"]",
-			"arms of the "+names[i]+" select of worker.Run: (channel, error assigned to jobErr, how the arm ends)")
+			"arms of the "+names[i]+" select of worker.Run: (role of the channel, error assigned to the result's error variable, how the arm ends)")
 		shape[names[i]] = items
 	}
 	find := func(sel, ch string) (arm, bool) {
@@ -99,7 +106,7 @@ func extractWorker() {
 		}
 		return ok && a.end == "break"
 	}
-	// wait loop: an arm reports iff it leaves the loop with `break Loop` (jobErr as assigned).
+	// wait loop: an arm reports iff it leaves the loop with `break Loop` (the result's error as assigned).
 	wait := func(ch, err string) bool {
 		a, ok := find("wait", ch)
 		if !ok {
@@ -111,27 +118,37 @@ func extractWorker() {
 	l.def("preIntCancelToWait", "Bool", lbool(pre("job.internalCancelChan")), "pre-check arm on job.internalCancelChan breaks into the wait loop")
 	dflt, ok := find("precheck", "default")
 	l.def("preDefaultSends", "Bool", lbool(ok && dflt.end == "fall"), "pre-check default arm queues the request and goes on to the wait loop")
-	l.def("waitTimeoutReports", "Bool", lbool(wait("timeout.C", "ErrQueryTimeout")), "wait arm on the timer reports ErrQueryTimeout")
-	l.def("waitDisconnectReports", "Bool", lbool(wait("peer.OnDisconnect()", "ErrPeerDisconnected")), "wait arm on OnDisconnect reports ErrPeerDisconnected")
+	l.def("waitTimeoutReports", "Bool", lbool(wait("jobTimer", "ErrQueryTimeout")), "wait arm on the job timer reports ErrQueryTimeout")
+	l.def("waitDisconnectReports", "Bool", lbool(wait("peerDisconnect", "ErrPeerDisconnected")), "wait arm on OnDisconnect reports ErrPeerDisconnected")
 	l.def("waitExtCancelReports", "Bool", lbool(wait("job.cancelChan", "ErrJobCanceled")), "wait arm on job.cancelChan reports ErrJobCanceled")
 	l.def("waitIntCancelReports", "Bool", lbool(wait("job.internalCancelChan", "ErrJobCanceled")), "wait arm on job.internalCancelChan reports ErrJobCanceled")
-	resp, ok := find("wait", "msgChan")
+	resp, ok := find("wait", "peerMsg")
 	l.def("waitFinishedReports", "Bool", lbool(ok && resp.end == "finished:break Loop;unfinished:continue Loop" && resp.err == ""),
-		"wait arm on msgChan: a finished response leaves the loop (nil result), an unfinished one keeps waiting")
+		"wait arm on the peer's message channel: a finished response leaves the loop (nil result), an unfinished one keeps waiting")
 	q, ok := find("wait", "quit")
 	l.def("waitQuitReturns", "Bool", lbool(ok && q.end == "return"), "wait arm on quit returns")
 	rq, ok := find("report", "quit")
 	rs, ok2 := find("report", "results<-")
 	l.def("reportSendsOrQuits", "Bool", lbool(ok && ok2 && rq.end == "return" && rs.end == "fall"), "result hand-off: send on results, or return on quit")
-	// after the hand-off: `if jobErr == ErrPeerDisconnected { return }`
+	// after the hand-off: `if <result error> == ErrPeerDisconnected { return }`
 	exitAfter := false
-	if fd != nil {
+	if fd != nil && rc.errVar != "" {
 		ast.Inspect(fd.Body, func(n ast.Node) bool {
-			if is, ok := n.(*ast.IfStmt); ok && strings.Join(strings.Fields(src(is.Cond)), " ") == "jobErr == ErrPeerDisconnected" {
-				if len(is.Body.List) == 1 {
-					if _, ok := is.Body.List[0].(*ast.ReturnStmt); ok {
-						exitAfter = true
-					}
+			is, ok := n.(*ast.IfStmt)
+			if !ok {
+				return true
+			}
+			be, ok := is.Cond.(*ast.BinaryExpr)
+			if !ok || be.Op != token.EQL {
+				return true
+			}
+			x, y := be.X, be.Y
+			if isIdent(y, rc.errVar) {
+				x, y = y, x
+			}
+			if isIdent(x, rc.errVar) && src(y) == "ErrPeerDisconnected" && len(is.Body.List) == 1 {
+				if _, ok := is.Body.List[0].(*ast.ReturnStmt); ok {
+					exitAfter = true
 				}
 			}
 			return true
@@ -141,52 +158,248 @@ func extractWorker() {
 	facts["worker"] = shape
 }
 
-// stmtsMention reports whether the statements refer to expr textually.
-func stmtsMention(stmts []ast.Stmt, expr string) bool {
-	for _, st := range stmts {
-		if strings.Contains(src(st), expr) {
-			return true
+// workerCtx maps the identifiers of worker.Run to their roles.
+type workerCtx struct {
+	results, quit string          // parameters, by type
+	msgVars       map[string]bool // locals holding the channel returned by SubscribeRecvMsg()
+	timerVars     map[string]bool // locals holding a timer made by time.NewTimer
+	errVar        string          // the variable stored in the err field of the jobResult sent on results
+	progVar       string          // the local assigned from HandleResp(...)
+	loopLabels    map[string]bool // labels of for statements (the wait loop is the only labelled loop)
+}
+
+func isIdent(e ast.Expr, name string) bool {
+	id, ok := e.(*ast.Ident)
+	return ok && id.Name == name
+}
+
+func workerRoles(fd *ast.FuncDecl) *workerCtx {
+	rc := &workerCtx{msgVars: map[string]bool{}, timerVars: map[string]bool{}, loopLabels: map[string]bool{}}
+	if fd == nil {
+		return rc
+	}
+	for _, p := range fd.Type.Params.List {
+		ct, ok := p.Type.(*ast.ChanType)
+		if !ok || len(p.Names) != 1 {
+			continue
+		}
+		elem := strings.Join(strings.Fields(src(ct.Value)), "")
+		switch {
+		case ct.Dir == ast.SEND && elem == "*jobResult":
+			rc.results = p.Names[0].Name
+		case ct.Dir == ast.RECV && elem == "struct{}":
+			rc.quit = p.Names[0].Name
 		}
 	}
-	return false
+	if rc.results == "" {
+		fail("query/worker.go: worker.Run has no parameter of type chan<- *jobResult")
+	}
+	if rc.quit == "" {
+		fail("query/worker.go: worker.Run has no parameter of type <-chan struct{}")
+	}
+	// what a local is assigned from: `a, b := call`, `a = call`, `var a = call`
+	bind := func(lhs []ast.Expr, rhs []ast.Expr) {
+		if len(rhs) == 0 || len(lhs) == 0 {
+			return
+		}
+		for i, r := range rhs {
+			c, ok := r.(*ast.CallExpr)
+			if !ok {
+				continue
+			}
+			// with a single multi-valued call the first result goes to lhs[0]
+			var target ast.Expr
+			if len(rhs) == 1 {
+				target = lhs[0]
+			} else if i < len(lhs) {
+				target = lhs[i]
+			}
+			id, ok := target.(*ast.Ident)
+			if !ok {
+				continue
+			}
+			switch fn := c.Fun.(type) {
+			case *ast.SelectorExpr:
+				switch {
+				case fn.Sel.Name == "SubscribeRecvMsg":
+					rc.msgVars[id.Name] = true
+				case fn.Sel.Name == "HandleResp":
+					rc.progVar = id.Name
+				case fn.Sel.Name == "NewTimer" && isIdent(fn.X, "time"):
+					rc.timerVars[id.Name] = true
+				}
+			}
+		}
+	}
+	ast.Inspect(fd.Body, func(n ast.Node) bool {
+		switch v := n.(type) {
+		case *ast.AssignStmt:
+			bind(v.Lhs, v.Rhs)
+		case *ast.LabeledStmt:
+			if _, ok := v.Stmt.(*ast.ForStmt); ok {
+				rc.loopLabels[v.Label.Name] = true
+			}
+		case *ast.ValueSpec:
+			var lhs []ast.Expr
+			for _, nm := range v.Names {
+				lhs = append(lhs, nm)
+			}
+			bind(lhs, v.Values)
+		case *ast.SendStmt:
+			// results <- &jobResult{…, err: X}
+			if isIdent(v.Chan, rc.results) {
+				var lit *ast.CompositeLit
+				switch e := v.Value.(type) {
+				case *ast.UnaryExpr:
+					lit, _ = e.X.(*ast.CompositeLit)
+				case *ast.CompositeLit:
+					lit = e
+				}
+				if lit != nil {
+					for _, el := range lit.Elts {
+						if kv, ok := el.(*ast.KeyValueExpr); ok && isIdent(kv.Key, "err") {
+							if id, ok := kv.Value.(*ast.Ident); ok {
+								rc.errVar = id.Name
+							}
+						}
+					}
+				}
+			}
+		}
+		return true
+	})
+	if rc.errVar == "" {
+		fail("query/worker.go: worker.Run: no send of a jobResult literal whose err field is a variable")
+	}
+	if rc.progVar == "" {
+		fail("query/worker.go: worker.Run: no local assigned from a HandleResp call")
+	}
+	return rc
+}
+
+// role names the channel of a select arm by what it is.
+func (rc *workerCtx) role(comm ast.Stmt) string {
+	if comm == nil {
+		return "default"
+	}
+	var ch ast.Expr
+	switch v := comm.(type) {
+	case *ast.SendStmt:
+		if isIdent(v.Chan, rc.results) {
+			return "results<-"
+		}
+		return "?send " + strings.Join(strings.Fields(src(v.Chan)), " ")
+	case *ast.ExprStmt:
+		if u, ok := v.X.(*ast.UnaryExpr); ok && u.Op == token.ARROW {
+			ch = u.X
+		}
+	case *ast.AssignStmt:
+		if len(v.Rhs) == 1 {
+			if u, ok := v.Rhs[0].(*ast.UnaryExpr); ok && u.Op == token.ARROW {
+				ch = u.X
+			}
+		}
+	}
+	switch e := ch.(type) {
+	case *ast.Ident:
+		switch {
+		case e.Name == rc.quit:
+			return "quit"
+		case rc.msgVars[e.Name]:
+			return "peerMsg"
+		}
+	case *ast.CallExpr:
+		if s, ok := e.Fun.(*ast.SelectorExpr); ok && s.Sel.Name == "OnDisconnect" && len(e.Args) == 0 {
+			return "peerDisconnect"
+		}
+	case *ast.SelectorExpr:
+		switch e.Sel.Name {
+		case "nextJob":
+			return "nextJob"
+		case "cancelChan":
+			return "job.cancelChan"
+		case "internalCancelChan":
+			return "job.internalCancelChan"
+		case "C":
+			if id, ok := e.X.(*ast.Ident); ok && rc.timerVars[id.Name] {
+				return "jobTimer"
+			}
+		}
+	}
+	return "?" + strings.Join(strings.Fields(src(comm)), " ")
+}
+
+// finishedCond classifies a condition as `P.Finished` (+1), `!P.Finished`
+// (-1) or something else (0), P being the progress value.
+func (rc *workerCtx) finishedCond(e ast.Expr) int {
+	if p, ok := e.(*ast.ParenExpr); ok {
+		return rc.finishedCond(p.X)
+	}
+	if u, ok := e.(*ast.UnaryExpr); ok && u.Op == token.NOT {
+		return -rc.finishedCond(u.X)
+	}
+	if s, ok := e.(*ast.SelectorExpr); ok && s.Sel.Name == "Finished" && rc.progVar != "" && isIdent(s.X, rc.progVar) {
+		return 1
+	}
+	return 0
+}
+
+// mentionsFinished reports whether the statements branch on the progress
+// value's Finished field.
+func (rc *workerCtx) mentionsFinished(stmts []ast.Stmt) bool {
+	found := false
+	for _, st := range stmts {
+		ast.Inspect(st, func(n ast.Node) bool {
+			if is, ok := n.(*ast.IfStmt); ok && rc.finishedCond(is.Cond) != 0 {
+				found = true
+			}
+			return !found
+		})
+	}
+	return found
 }
 
 // outcome follows a statement list to the jump that ends it (break / break L /
 // continue / continue L / return) or "fall" when it runs off the end, taking
-// `if progress.Finished` / `if !progress.Finished` according to finished.  An
-// if on anything else is skipped when neither branch jumps, and makes the
-// outcome "?" (unknown shape, the fact fails) when one does.
-func outcome(stmts []ast.Stmt, finished bool) string {
+// `if P.Finished` / `if !P.Finished` according to finished.  An if on anything
+// else is skipped when neither branch jumps, and makes the outcome "?"
+// (unknown shape, the fact fails) when one does.
+func (rc *workerCtx) outcome(stmts []ast.Stmt, finished bool) string {
 	for _, st := range stmts {
 		switch v := st.(type) {
 		case *ast.BranchStmt:
 			e := v.Tok.String()
 			if v.Label != nil {
-				e += " " + v.Label.Name
+				// the wait loop is the one labelled loop of Run: its label is
+				// written "Loop" whatever it is called
+				if len(rc.loopLabels) == 1 && rc.loopLabels[v.Label.Name] {
+					e += " Loop"
+				} else {
+					e += " " + v.Label.Name
+				}
 			}
 			return e
 		case *ast.ReturnStmt:
 			return "return"
 		case *ast.IfStmt:
-			cond := strings.Join(strings.Fields(src(v.Cond)), "")
 			var els []ast.Stmt
 			if b, ok := v.Else.(*ast.BlockStmt); ok {
 				els = b.List
 			} else if v.Else != nil {
 				els = []ast.Stmt{v.Else}
 			}
-			switch cond {
-			case "progress.Finished", "!progress.Finished":
-				take := finished == (cond == "progress.Finished")
+			switch c := rc.finishedCond(v.Cond); c {
+			case 1, -1:
+				take := finished == (c == 1)
 				br := els
 				if take {
 					br = v.Body.List
 				}
-				if o := outcome(br, finished); o != "fall" {
+				if o := rc.outcome(br, finished); o != "fall" {
 					return o
 				}
 			default:
-				if outcome(v.Body.List, finished) != "fall" || outcome(els, finished) != "fall" {
+				if rc.outcome(v.Body.List, finished) != "fall" || rc.outcome(els, finished) != "fall" {
 					return "?"
 				}
 			}
